@@ -217,13 +217,5 @@ for _s, _fn, _tree, _file in (("html", "mmd_export_token_html", "mmd_export_toke
       callees={"table_has_caption": "contract stub: any answer", _tree: "contract stub recording the chain it is given", "read_table_column_alignments, label_from_token": "contract stubs", "every other callee": "body removed, nondet return value"},
       min_obligations=3, timeout=300, cost=10, assumptions=[NOFAIL, "configuration -DI18N_DISABLED", "memory safety of the arm is not claimed by this unit (standard checks off: callees are havocked)"])
 
-# ---- the lemon block grammar accepts every sequence of line kinds (bounded, concrete kinds)
-for _nl, _tier in ((2, "quick"), (3, "thorough")):
-    U("c02_parser_accepts_L%d" % _nl, ["C02"], "h_parse_accepts", ["C02/parser_accepts.c"], ["mmd.c", "parser.c", "token.c", "char.c"], plain=True, lib=(), kind="bounded", tier=_tier,
-      drop_bodies=["recursive_parse_list_item", "recursive_parse_indent", "recursive_parse_blockquote", "strip_line_tokens_from_block", "is_para_html"],
-      defines=["-DDISABLE_OBJECT_POOL", "-DNDEBUG", "-DNL=%d" % _nl, "-DALL_LINE_TYPES=" + ",".join(_ALL_LINES)],
-      cbmc_flags=["--unwind", "%d" % (len(_ALL_LINES) + 30), "--unwinding-assertions", "--object-bits", "13"], checks=["--no-standard-checks"],
-      bounds={"lines": _nl, "line kinds": "every LINE_* kind of parser.h, enumerated concretely (%d^%d sequences)" % (len(_ALL_LINES), _nl)},
-      functions=["mmd_parse_token_chain", "Parse / ParseAlloc / ParseFree (parser.c, generated by lemon)"],
-      callees={"recursive_parse_*, strip_line_tokens_from_block, is_para_html, stack_push": "contract stubs", "token_*": "body (DISABLE_OBJECT_POOL)", "fprintf": "observer of the %syntax_error / %parse_failure hooks"},
-      min_obligations=3, timeout=900, cost=200, assumptions=[NOFAIL, "compiled with -DNDEBUG (lemon's trace code off, as in the release build)"])
+# (a bounded acceptance unit of the lemon block grammar, C02/parser_accepts.c -- real mmd_parse_token_chain + parser.c over 1 or 2 line tokens of
+#  every kind -- did not finish: 1 line 600 s, 2 lines 900 s; not registered)
